@@ -91,3 +91,19 @@ func init() {
 		},
 	}
 }
+
+func init() {
+	properties["C05"] = Property{
+		Level: "exploration",
+		Rule: "cases = literals (bytes of length 0..2300 biased to the boundaries 7/8/9, 255/256/257, 2047/2048/2049; contents: all byte values, runs, quotes/backslashes, invalid UTF-8) x form {string, typed string, folded concatenation, []byte, [N]byte, &[]byte, &[N]byte} x syntactic context (13 kinds incl. const declarations, array lengths and case labels) x obfuscator {simple, swap, split, shuffle, seed, garble's own choice} x math/rand seed; each batch is obfuscated with literals.Obfuscate, printed, compiled with the real compiler and run, and every carrier's run-time bytes are compared with the bytes written into the source. End-to-end: generated programs built with garble -literals and compared with the regular build. evaluations = literal x seed pairs. Non-trivial = length inside the obfuscation window [8, 2048] and not a typed/const form that stays a constant; distinct = (obfuscator, form, context, length bucket).",
+		Assumptions: []string{
+			"expected values come from the generator, never from garble",
+			"split, shuffle and seed are forced only on literals up to 256 bytes, the largest size at which garble itself selects them",
+			"the go1.26.2 compiler is trusted to evaluate the printed obfuscated code",
+		},
+		ReplayUnit: "TestVerifC05Replay",
+		Units: []Unit{
+			{Name: "TestVerifC05Batch", Kind: "inproc", Pkg: "./internal/literals", Checks: [2]int{15, 120}, Workers: [2]int{4, 12}, Shrink: "60s"},
+		},
+	}
+}
